@@ -1,5 +1,11 @@
 """C11 — model -> generated MxlPy source -> model preserves behaviour, or fails (DESIGN §6/C11).
 
+Input classes (restated in `uses` / `input_class` independently of the key names): the function of an initial
+assignment or computed coefficient always gets a definition of its own; the functions of derived quantities and
+reactions are filed under their `__name__` (last use wins).  dup = an emitted definition would repeat a parameter
+-> generation raises ValueError; collide = a derived / reaction use whose `__name__` belongs to a different
+function's emitted definition -> F-C11-1.
+
 Per generated case (content whose functions have chosen `__name__`s: unique, shared between components with
 different argument lists, or deliberately colliding; queries):
   S = the original real model's answers to the core queries (names/kinds, initial values, parameter values,
@@ -31,55 +37,98 @@ PROPS = ["MxlVerif.Props.C11"]
 # --------------------------------------------------------------------------- the code's keys
 
 
-def entries(content):
-    """(key, function identity, args) in the order the generator fills its `functions` dict.
-    Generated keys (init_<f>, <rxn>_stoich_<f>) are extended with "_" until no derived / reaction function
-    has that name."""
+def uses(content):
+    """every function slot of the model in the order the generator visits them: (kind, name, identity, args).
+    kind "gen": the function of an initial assignment or of a computed stoichiometric coefficient - the generator
+    files its definition under a name of its own (`init_<f>` / `<rxn>_stoich_<f>`, extended with "_" until no other
+    function has it: `_free_name` hands every name out once), so every such use has its own emitted definition.
+    kind "comp": the function of a derived quantity or a reaction - filed under its `__name__`, a later use with the
+    same name replaces the definition."""
     out = []
-    taken = {f["name"] for _, f in content["derived"]} | {r["name"] for _, r in content["rxns"]}
 
     def ident(f):
         return (f["name"], json.dumps(f["e"]), len(f["args"]))
 
-    def free(name):
-        while name in taken:
-            name += "_"
-        return name
-
     for k, v in content["vars"]:
         if "ia" in v:
-            out.append((free(f"init_{v['ia']['name']}"), ident(v["ia"]), list(v["ia"]["args"])))
+            out.append(("gen", v["ia"]["name"], ident(v["ia"]), list(v["ia"]["args"])))
     for k, v in content["pars"]:
         if "ia" in v:
-            out.append((free(f"init_{v['ia']['name']}"), ident(v["ia"]), list(v["ia"]["args"])))
+            out.append(("gen", v["ia"]["name"], ident(v["ia"]), list(v["ia"]["args"])))
     for k, f in content["derived"]:
-        out.append((f["name"], ident(f), list(f["args"])))
+        out.append(("comp", f["name"], ident(f), list(f["args"])))
     for k, r in content["rxns"]:
-        out.append((r["name"], ident(r), list(r["args"])))
+        out.append(("comp", r["name"], ident(r), list(r["args"])))
         for cpd, cj in r["st"]:
             if "c" not in cj:
-                out.append((free(f"{k}_stoich_{cj['name']}"), ident(cj), list(cj["args"])))
+                out.append(("gen", cj["name"], ident(cj), list(cj["args"])))
     return out
 
 
 def input_class(content):
-    """(dup, collide): some emitted definition (the last use under its key) would repeat a parameter name /
-    some use refers to a key whose emitted definition comes from a different function"""
-    ents = entries(content)
-    winner = {}
-    for key, idn, args in ents:
-        winner[key] = (idn, args)
-    dup = any(len(set(args)) != len(args) for _, args in winner.values())
-    collide = any(winner[key][0] != idn for key, idn, _ in ents)
-    return dup, collide
+    """(dup, collide, unsure): some emitted definition would repeat a parameter name (any initial-assignment /
+    coefficient use, or the last use under a derived / reaction function name) / some `__name__` is shared by two
+    different functions of derived quantities or reactions (generation refuses, after the repair of F-C11-1) /
+    the two same-named functions are different objects with different texts that compute the same polynomial (whether
+    the generator takes them for the same function depends on sympy's normal form: either outcome is accepted)"""
+    us = uses(content)
+    winner, idents = {}, {}
+    for kind, name, idn, args in us:
+        if kind == "comp":
+            winner[name] = (idn, args)
+            idents.setdefault(name, set()).add(idn)
+    dup = (any(len(set(args)) != len(args) for kind, _, _, args in us if kind == "gen")
+           or any(len(set(args)) != len(args) for _, args in winner.values()))
+    collide = any(len(v) > 1 for v in idents.values())
+    unsure = False
+    for v in idents.values():
+        if len(v) > 1:
+            try:
+                polys = {json.dumps(sorted((list(m), str(c)) for m, c in cg.poly(json.loads(e), ar).items())) + f"/{ar}"
+                         for _, e, ar in v}
+            except ValueError:
+                polys = set(v)
+            if len(polys) < len(v):
+                unsure = True
+    return dup, collide, unsure
+
+
+def expected_def_keys(content):
+    """keys of the emitted definitions in emission order, restated from the documentation of `_free_name` (a generated
+    name is extended until neither a derived / reaction function nor an earlier generated name has it)"""
+    taken = {f["name"] for _, f in content["derived"]} | {r["name"] for _, r in content["rxns"]}
+    keys = []
+
+    def free(name):
+        while name in taken:
+            name += "_"
+        taken.add(name)
+        return name
+
+    def put(key):
+        if key not in keys:
+            keys.append(key)
+
+    for k, v in content["vars"]:
+        if "ia" in v:
+            put(free(f"init_{v['ia']['name']}"))
+    for k, v in content["pars"]:
+        if "ia" in v:
+            put(free(f"init_{v['ia']['name']}"))
+    for k, f in content["derived"]:
+        put(f["name"])
+    for k, r in content["rxns"]:
+        put(r["name"])
+        for cpd, cj in r["st"]:
+            if "c" not in cj:
+                put(free(f"{k}_stoich_{cj['name']}"))
+    return keys
 
 
 def classify(content):
-    """finding class of an input that gets past generation (repeated parameter names make generation raise
-    ValueError since the repair of F-C11-2; that is the claim's "or fails", not a finding)"""
-    dup, collide = input_class(content)
-    if collide and not dup:
-        return "F-C11-1"
+    """finding class of an input that gets past generation: none is left (repeated parameter names and two different
+    same-named functions make generation raise ValueError since the repairs of F-C11-2 / F-C11-1; that is the claim's
+    "or fails", not a finding)"""
     return None
 
 
@@ -174,6 +223,17 @@ def structure_of(m):
         "rxns": [[k, list(r.args), [[c, (["dyn", list(f.args)] if isinstance(f, Derived) else ["num", C.num(f)])]
                                     for c, f in r.stoichiometry.items()]] for k, r in m.get_raw_reactions().items()],
     }
+
+
+def heads_of(struct):
+    """`structure_of` in the vocabulary of the Lean `heads` / `Call.head`: [kind, name, args | None, [[compound, args | None]]]"""
+    def a(v):
+        return list(v[1]) if v[0] in ("ia", "dyn") else None
+
+    return ([["variable", k, a(v), []] for k, v in struct["vars"]]
+            + [["parameter", k, a(v), []] for k, v in struct["pars"]]
+            + [["derived", k, list(args), []] for k, args in struct["derived"]]
+            + [["reaction", k, list(args), [[c, a(f)] for c, f in st]] for k, args, st in struct["rxns"]])
 
 
 def _round_trip(m, qs):
@@ -340,6 +400,7 @@ def gen_case(ctx, i):
     extra, kw = {}, {}
     if r < 0.32:
         stratum, namer, dup = "unique+shared", Namer(rng, 0.35, 0.0, 0.0), 0.0
+        kw = {"p_param_names": 0.3}
     elif r < 0.50:
         stratum, namer, dup = "colliding", Namer(rng, 0.2, 0.25, 0.15), 0.0
     elif r < 0.62:
@@ -352,9 +413,14 @@ def gen_case(ctx, i):
         #              session: the constants change, a model is built from the same functions and generated again
         stratum, namer, dup = "module-constants", Namer(rng, 0.3, 0.0, 0.0), 0.0
         kw = {"p_modconst": 0.6}
-    elif r < 0.94:   # wider expression fragment (/ % ** unary minus, nested): oracle only, R vs S to 1e-9
+    elif r < 0.91:   # wider expression fragment (/ % ** unary minus, nested): oracle only, R vs S to 1e-9
         stratum, namer, dup = "wider-expressions", Namer(rng, 0.3, 0.0, 0.0), 0.0
         kw = {"rich": True, "small": (1, 2, 4), "p_time": 0.0, "n_pars": (1, 3)}
+        extra["oracle_only"] = True
+    elif r < 0.95:   # constants of the math module (math.pi, math.e) as factor / summand / divisor / modulus: the
+        #              generated source must import what its definitions refer to; oracle only, R vs S to 1e-9
+        stratum, namer, dup = "math-constants", Namer(rng, 0.3, 0.0, 0.0), 0.0
+        kw = {"rich": "math", "small": (1, 2, 4), "p_time": 0.0, "n_pars": (1, 3), "n_comps": (1, 4)}
         extra["oracle_only"] = True
     else:            # control flow in the functions, states / parameters negative, zero, on the thresholds, positive
         stratum, namer, dup = "conditionals", Namer(rng, 0.3, 0.0, 0.0), 0.0
@@ -418,7 +484,8 @@ def judge_oracle_only(ctx, case, R):
     classes = cg.rich_classes(case["content"])
     # "recip-modulus" (x % (1/p), formerly F-C11-4) is repaired and judged like any other input
     fid = "F-C11-5" if "shared-modulus" in classes else None
-    dup, collide = input_class(case["content"])
+    dup, collide, _unsure = input_class(case["content"])
+    dup = dup or collide
     ctx.count({k: case[k] for k in ("content", "queries", "bad")},
               f"{case.get('stratum', '?')}:{cg.shape_of(case['content'])}:{fid or 'in-scope'}")
     base = {k: case[k] for k in ("content", "bad", "decl_seed", "oracle_only") if k in case}
@@ -432,11 +499,8 @@ def judge_oracle_only(ctx, case, R):
     if "gen" in R:
         ctx.judge(dict(base, queries=[]), R["gen"], {"ok": "source emitted"}, None, what="generation raised (oracle-only stratum)")
         return
-    if not collide:
-        ctx.judge(dict(base, queries=[]), R["R_struct"], R["S_struct"], None,
-                  what="component names / kinds / arguments / plain values (oracle-only stratum)")
-    else:
-        return      # name collisions are the subject of the exact strata
+    ctx.judge(dict(base, queries=[]), R["R_struct"], R["S_struct"], None,
+              what="component names / kinds / arguments / plain values (oracle-only stratum)")
     for i, q in enumerate(case["queries"]):
         S, Rq = R["S"][i], R["R"][i]
         if "err" in S or not cg.finite_answer(S):
@@ -449,9 +513,10 @@ def judge_oracle_only(ctx, case, R):
 
 def judge_phase(ctx, case, R, M, tag=""):
     fid = classify(case["content"])
-    dup, collide = input_class(case["content"])
+    dup, collide, unsure = input_class(case["content"])
     ctx.count({k: case[k] for k in ("content", "queries", "bad")},
-              f"{case.get('stratum', '?')}:{cg.shape_of(case['content'])}:{fid or ('repeated-parameter' if dup else 'in-scope')}")
+              f"{case.get('stratum', '?')}:{cg.shape_of(case['content'])}:"
+              + ("same-name-same-polynomial" if unsure else "two-functions-one-name" if collide else "repeated-parameter" if dup else "in-scope"))
     oc = case.get("_orig", case)     # a violation of the second phase is replayed as the whole session
     base = {k: oc[k] for k in ("content", "bad", "decl_seed", "session") if k in oc}
     # ---- generation raises exactly when a function cannot be translated
@@ -472,15 +537,28 @@ def judge_phase(ctx, case, R, M, tag=""):
     if M is not None and M["hypKeys"] and not M["hypSrc"]:
         ctx.add_drift(dict(base, queries=[]), {"keysInjective": True}, {"refsSrcOk": False},
                       "input-level hypothesis does not imply the program-level one")
-    # ---- a definition that would repeat a parameter name: generation raises, no source is emitted
-    if dup:
+    # ---- two same-named function objects whose texts differ but compute the same polynomial: the generator may take them
+    #      for one function (source emitted, judged below against the original) or for two (ValueError); the Lean model,
+    #      which identifies functions by their text, is not consulted
+    if unsure:
+        ctx.hist["same_name_same_polynomial"] = ctx.hist.get("same_name_same_polynomial", 0) + 1
+        if "gen" in R:
+            ctx.judge(dict(base, queries=[]), R["gen"], {"err": ["ValueError"]}, None,
+                      what="generation raised for same-named functions with different texts" + tag)
+            return
+        M = None
+        collide = False
+    # ---- two different functions with one name, or a definition that would repeat a parameter name: generation raises,
+    #      no source is emitted
+    if dup or collide:
         Mg = None
         if M is not None:
             Mg = canon_M_err(M["rt"]["err"]) if "err" in M["rt"] else {"ok": "source emitted"}
             if "ok" in M["program"]:
                 ctx.add_drift(dict(base, queries=[]), {"err": ["ValueError"]}, {"ok": "program"}, "Lean generator emits a program with a repeated parameter")
         ctx.judge(dict(base, queries=[]), R.get("gen", {"ok": "source emitted"}), {"err": ["ValueError"]}, Mg,
-                  what="generation must raise for a repeated parameter name" + tag)
+                  what=("generation must raise for two different functions with one name" if collide else
+                        "generation must raise for a repeated parameter name") + tag)
         return
     if "gen" in R:
         ctx.judge(dict(base, queries=[]), R["gen"], {"ok": "source emitted"}, None, what="generation raised")
@@ -506,7 +584,18 @@ def judge_phase(ctx, case, R, M, tag=""):
                     ctx.add_drift(dict(base, queries=[]), heads, Mp["ok"]["defs"], "definition heads of an unparsable source")
         else:
             ctx.add_drift(dict(base, queries=[]), R["shape"], Mp, "Lean generator fails where the code emits source")
-    # ---- names, kinds, wiring
+    # ---- keys of the emitted definitions: every generated name is handed out once
+    if "err" not in R["shape"]:
+        Mk = [d[0] for d in M["program"]["ok"]["defs"]] if M is not None and "ok" in M["program"] else None
+        ctx.judge(dict(base, queries=[]), [d[0] for d in R["shape"]["defs"]], expected_def_keys(case["content"]), Mk,
+                  what="keys of the emitted definitions" + tag)
+    # ---- names, kinds, wiring (Lean: `heads` of the model and `Call.head` of the program, C11_build_structure)
+    if M is not None and "heads" in M:
+        if M["heads"]["model"] != heads_of(R["S_struct"]):
+            ctx.add_drift(dict(base, queries=[]), heads_of(R["S_struct"]), M["heads"]["model"], "what the model declares (heads)" + tag)
+        if "err" not in R["R_struct"] and M["heads"]["program"] != heads_of(R["R_struct"]):
+            ctx.add_drift(dict(base, queries=[]), heads_of(R["R_struct"]), M["heads"]["program"],
+                          "what the generated program declares (Call.head)" + tag)
     ctx.judge(dict(base, queries=[]), R["R_struct"], R["S_struct"], None,
               what="component names / kinds / arguments / plain values" + tag)
     # ---- behaviour
@@ -569,6 +658,34 @@ def _rich(name, args, e):
 
 
 CORPUS += [
+    # constants of the math module: the generated source must import the module its definitions refer to (F-C11-7,
+    # repaired), and the modulus 2*pi keeps its parentheses
+    {"content": {"vars": [["x", {"v": "8"}]], "pars": [["p", {"v": "2"}]],
+                 "derived": [["d", _rich("f", ["x", "p"], ["+", ["%", ["a", 0], ["*", ["c", "2"], ["m", "pi"]]], ["a", 1]])]],
+                 "rxns": [["r", dict(_rich("g", ["d", "x"], ["*", ["*", ["a", 0], ["m", "e"]], ["a", 1]]), st=[["x", {"c": "-1"}]])]]},
+     "oracle_only": True, "queries": [["args", None, "0"], ["rhs", None, "0"]]},
+    # class repaired by `fix: a function name generated ... is taken from then on`: initial assignments with `a` and `a_`
+    # next to a derived function `init_a` (keys init_a_, init_a__), and two different coefficient functions both called
+    # `f2` in one reaction (keys r_stoich_f2, r_stoich_f2_; the first with a repeated argument made generation raise)
+    {"content": {"vars": [["x", {"v": "1"}], ["y", {"v": "2"}]],
+                 "pars": [["k", {"v": "3"}], ["q1", {"ia": {"args": ["k", "x"], "e": _F["add"], "name": "a"}}],
+                          ["q2", {"ia": {"args": ["k", "x"], "e": _F["mul"], "name": "a_"}}]],
+                 "derived": [["d1", {"args": ["q1", "q2"], "e": _F["sub"], "name": "init_a"}]],
+                 "rxns": [["r", {"args": ["d1", "k"], "e": _F["sub"], "name": "g",
+                                 "st": [["x", {"args": ["k", "q1"], "e": _F["add"], "name": "f2"}],
+                                        ["y", {"args": ["k", "q2"], "e": _F["mul"], "name": "f2"}]]}]]}},
+    # two different initial-assignment functions with the same __name__ (formerly part of F-C11-1): init_f, init_f_
+    {"content": {"vars": [["x", {"v": "1"}]],
+                 "pars": [["k", {"v": "3"}], ["q1", {"ia": {"args": ["k", "x"], "e": _F["add"], "name": "f"}}],
+                          ["q2", {"ia": {"args": ["k", "x"], "e": _F["mul"], "name": "f"}}]],
+                 "derived": [["d1", {"args": ["q1", "q2"], "e": _F["sub"], "name": "h"}]],
+                 "rxns": [["r", {"args": ["d1", "k"], "e": _F["sub"], "name": "g", "st": [["x", {"c": "-1"}]]}]]}},
+    # a computed coefficient whose own use repeats an argument: generation raises, although a later use under the same
+    # generated base name does not (every generated definition is emitted)
+    {"content": {"vars": [["x", {"v": "1"}], ["y", {"v": "2"}]], "pars": [["k", {"v": "3"}]], "derived": [],
+                 "rxns": [["r", {"args": ["x", "k"], "e": _F["mul"], "name": "g",
+                                 "st": [["x", {"args": ["k", "k"], "e": _F["add"], "name": "f2"}],
+                                        ["y", {"args": ["k", "x"], "e": _F["mul"], "name": "f2"}]]}]]}},
     # wider fragment: x % (1/p) was printed `(x % 1/p)` (former F-C11-4, repaired: `(x % (1/p))`)
     {"content": {"vars": [["x", {"v": "4"}]], "pars": [["p", {"v": "4"}]],
                  "derived": [["d", _rich("f", ["x", "p"], ["%", ["/", ["c", "125"], ["a", 0]], ["/", ["a", 1], ["*", ["a", 1], ["a", 1]]]])]],
